@@ -122,6 +122,10 @@ type CheckRun struct {
 	Known        []*KnownFinding
 	KnownHits    map[string][]string
 	Extra        map[string]any
+	// LoadFailureRelevant: a generated package that does not type-check counts
+	// against the property of this run when the compiler message concerns the
+	// code the property is about.
+	LoadFailureRelevant func(msg string) bool
 }
 
 func NewCheckRun(prop, tier string, seed int64, repo, verif string) (*CheckRun, error) {
